@@ -101,14 +101,45 @@ func (r rset) equal(o rset) bool    { return slices.Equal(r, o) }
 func (r rset) String() string {
 	var sb strings.Builder
 	sb.WriteByte('{')
-	for i, x := range r {
+	for i := 0; i < len(r); i++ {
 		if i > 0 {
 			sb.WriteByte(',')
 		}
-		fmt.Fprint(&sb, x)
+		fmt.Fprint(&sb, r[i])
+		if len(r) > 32 { // long sets: runs of consecutive values as lo..hi
+			j := i
+			for j+1 < len(r) && r[j+1] == r[j]+1 {
+				j++
+			}
+			if j > i+1 {
+				fmt.Fprintf(&sb, "..%d", r[j])
+				i = j
+			}
+		}
 	}
 	sb.WriteByte('}')
 	return sb.String()
+}
+
+// span lists n consecutive model values starting at lo, wrapping at univ.
+func span(lo, n, univ int) []int {
+	out := make([]int, 0, n)
+	for i := 0; i < n; i++ {
+		out = append(out, (lo+i)%univ)
+	}
+	return out
+}
+
+// complOf lists the values of 0..univ-1 that xs does not hold (never nil).
+func complOf(xs []int, univ int) []int {
+	in := norm(xs)
+	out := make([]int, 0, univ)
+	for x := 0; x < univ; x++ {
+		if !in.has(x) {
+			out = append(out, x)
+		}
+	}
+	return out
 }
 
 // show renders a real set for messages: nil, or its sorted elements (as
@@ -134,17 +165,77 @@ func (r *setRun[T]) show(s mapset.Set[T]) string {
 }
 
 type setRun[T comparable] struct {
-	c    Case
-	d    *dom[T]
-	vars [NV]mapset.Set[T]
-	ref  [NV]rset
-	step int
+	c     Case
+	d     *dom[T]
+	vars  [NV]mapset.Set[T]
+	ref   [NV]rset
+	step  int
+	sweep []int // scratch of hasSweep
+	// untouched[i]: the operation just applied did not name variable i (see checkVar)
+	untouched [NV]bool
 
 	// measurements for NT and the class histogram
 	binDiffNonEmpty, binEmpty, binNil, recvLarger, recvSmaller int
 	nilRecvMut, selfOperand, popNonEmpty, popEmpty, probes     int
 	ctor, emptyIntersectArgs, nanCleared                       int
+	manyOperands, partition, wholeType                         int
 }
+
+// universe is what the compl operation complements in: every value of the
+// element type for the 1-byte kinds, the model values 0..hiElem otherwise.
+func (r *setRun[T]) universe() int {
+	if r.d.univ > 0 {
+		return r.d.univ
+	}
+	return hiElem + 1
+}
+
+// fresh returns a member that none of the given reference sets holds, for
+// writing into a map directly.  It is the probe element for the kinds with an
+// open universe; for the 1-byte kinds it is searched (false: the sets cover
+// the whole type between them).
+func (r *setRun[T]) fresh(refs ...rset) (T, bool) {
+	if r.d.univ == 0 {
+		return r.d.of(probe), true
+	}
+next:
+	for i := 0; i < r.d.univ; i++ {
+		x := (probe + i) % r.d.univ
+		for _, ref := range refs {
+			if ref.has(x) {
+				continue next
+			}
+		}
+		return r.d.of(x), true
+	}
+	var zero T
+	return zero, false
+}
+
+// hasSweep lists the model values whose membership is compared after every
+// step (Slice and Len are compared in full anyway).
+func (r *setRun[T]) hasSweep() []int {
+	if r.d.univ == 0 {
+		return sweepOpen
+	}
+	// the 1-byte kinds: both ends and the middle of the type, the probe, and a
+	// window of 8 values that moves with the step
+	r.sweep = append(r.sweep[:0], sweepByte...)
+	for i := 0; i < 8; i++ {
+		r.sweep = append(r.sweep, ((r.step+1)*8+i)&255)
+	}
+	return r.sweep
+}
+
+var sweepOpen, sweepByte = func() (a, b []int) {
+	for x := -1; x <= hiElem; x++ {
+		a = append(a, x)
+	}
+	for x := 0; x <= hiElem; x++ {
+		b = append(b, x, 255-x)
+	}
+	return a, append(b, 126, 127, 128, 129, probe)
+}()
 
 func (r *setRun[T]) errf(format string, args ...any) string {
 	where := "init"
@@ -194,38 +285,70 @@ func (r *setRun[T]) checkVar(i int) string {
 	if got := s.IsEmpty(); got != (len(want) == 0) {
 		return r.errf("var%d: IsEmpty = %v, reference is %v", i, got, want)
 	}
-	for x := -1; x <= hiElem; x++ {
+	for _, x := range r.hasSweep() {
 		if got := s.Has(r.d.of(x)); got != want.has(x) {
 			return r.errf("var%d: Has(%d) = %v, reference is %v", i, x, got, want)
 		}
 	}
-	if s.Has(r.d.of(probe)) {
+	if r.d.univ == 0 && s.Has(r.d.of(probe)) {
 		return r.errf("var%d: holds the probe element %d that was never added to it", i, probe)
 	}
+	if r.d.univ > 0 && len(want) > 64 && r.untouched[i] && (r.step+i)%4 != 0 {
+		// 1-byte kinds, a large set that the step did not name: Len, IsEmpty and
+		// the Has sweep every step, the full listing every fourth step
+		return ""
+	}
 	sl := s.Slice()
-	got, stray := r.d.vals(sl)
-	sort.Ints(got)
-	if stray > 0 || !slices.Equal(got, []int(want)) {
+	if !r.onceEach(sl, want) {
 		return r.errf("var%d: Slice = %s, want each member of %v exactly once", i, r.d.list(sl), want)
 	}
 	// Append: the prefix is preserved, then each member exactly once.
-	p7, p8 := r.d.of(-7), r.d.of(-8)
-	pre := make([]T, 2, 2+(r.step+1+i)%3*len(want)) // spare capacity 0, 1x or 2x Len
+	p7, p8 := r.d.of(r.d.univ-7), r.d.of(r.d.univ-8) // (model values -7, -8; 249, 248 for the 1-byte kinds)
+	pre := make([]T, 2, 2+(r.step+1+i)%3*len(want))  // spare capacity 0, 1x or 2x Len
 	pre[0], pre[1] = p7, p8
 	ap := s.Append(pre)
 	if len(ap) < 2 || ap[0] != p7 || ap[1] != p8 || pre[0] != p7 || pre[1] != p8 {
 		return r.errf("var%d: Append([-7 -8]) = %s, prefix not preserved", i, r.d.list(ap))
 	}
-	got, stray = r.d.vals(ap[2:])
-	sort.Ints(got)
-	if stray > 0 || !slices.Equal(got, []int(want)) {
+	if !r.onceEach(ap[2:], want) {
 		return r.errf("var%d: Append([-7 -8]) = %s, want the prefix then each member of %v exactly once", i, r.d.list(ap), want)
 	}
 	return ""
 }
 
+// onceEach reports whether es holds each member of want exactly once and
+// nothing else.
+func (r *setRun[T]) onceEach(es []T, want rset) bool {
+	if len(es) != len(want) {
+		return false
+	}
+	if r.d.univ > 0 {
+		// few possible values: tick them off instead of sorting
+		var seen [256]bool
+		for _, e := range es {
+			x, _ := r.d.val(e)
+			if seen[x] {
+				return false
+			}
+			seen[x] = true
+		}
+		for _, x := range want {
+			if !seen[x] {
+				return false
+			}
+		}
+		return true
+	}
+	got, stray := r.d.vals(es)
+	sort.Ints(got)
+	return stray == 0 && slices.Equal(got, []int(want))
+}
+
 func (r *setRun[T]) checkAll() string {
 	for i := 0; i < NV; i++ {
+		if r.d.univ > 0 && len(r.ref[i]) == r.d.univ {
+			r.wholeType++
+		}
 		if msg := r.checkVar(i); msg != "" {
 			return msg
 		}
@@ -239,6 +362,9 @@ func (r *setRun[T]) checkAll() string {
 // operations (documented as allowed), not the code under test.
 func (r *setRun[T]) probeAlias(d int, what string) string {
 	r.probes++
+	if r.d.univ > 0 {
+		return r.probeAliasFull(d, what)
+	}
 	pe := r.d.of(probe) // the probe as a member
 	if r.vars[d] != nil {
 		r.vars[d][pe] = struct{}{}
@@ -271,8 +397,51 @@ func (r *setRun[T]) probeAlias(d int, what string) string {
 	return ""
 }
 
+// probeAliasFull is probeAlias for the kinds without an element outside the
+// universe.  Two variables that share storage have the same contents, so only
+// the variables whose reference equals that of d need probing (the others are
+// told apart by the comparison with the references after the step): with an
+// element neither holds if there is one, else (both hold every value of the
+// type) by deleting one member from one map and looking for it in the other.
+func (r *setRun[T]) probeAliasFull(d int, what string) string {
+	if r.vars[d] == nil {
+		return ""
+	}
+	for j := 0; j < NV; j++ {
+		if j == d || r.vars[j] == nil || !r.ref[j].equal(r.ref[d]) {
+			continue
+		}
+		a, b := r.vars[d], r.vars[j]
+		if pe, ok := r.fresh(r.ref[d]); ok {
+			a[pe] = struct{}{}
+			_, seen := b[pe]
+			delete(a, pe)
+			if !seen {
+				b[pe] = struct{}{}
+				_, seen = a[pe]
+				delete(b, pe)
+			}
+			if seen {
+				return r.errf("%s: result aliases var%d: adding %s to one of them made it appear in the other", what, j, r.d.one(pe))
+			}
+		} else {
+			pe := r.d.of(probe)
+			delete(a, pe)
+			_, still := b[pe]
+			a[pe] = struct{}{}
+			if !still {
+				return r.errf("%s: result aliases var%d: deleting %d from the result made it disappear from var%d", what, j, probe, j)
+			}
+		}
+	}
+	return ""
+}
+
 // noteBinary records the operand-size relation of a binary operation.
 func (r *setRun[T]) noteBinary(recv, arg rset, recvNil, argNil bool) {
+	if len(recv) > 0 && len(arg) > 0 && len(recv)+len(arg) == r.universe() && len(recv.inter(arg)) == 0 {
+		r.partition++ // the operands partition the universe (the whole element type for the 1-byte kinds)
+	}
 	switch {
 	case len(recv) == 0 || len(arg) == 0:
 		r.binEmpty++
@@ -398,6 +567,13 @@ func (r *setRun[T]) apply(op Op) string {
 			return r.errf("Clear of a set holding %v and %d NaN members left Len = %d, want 0", r.ref[d], nan, n)
 		}
 		r.ref[d] = nil
+	case "compl":
+		// var d becomes the complement of var s0 in the universe (for the 1-byte
+		// kinds: every value of the type that s0 does not hold, so that the two
+		// partition the type).  Built with the built-in map operations, not by
+		// the package.
+		co := complOf(r.ref[s0], r.universe())
+		r.vars[d], r.ref[d] = r.mkSet(co), norm(co)
 	case "setnil":
 		r.vars[d] = nil
 		r.ref[d] = nil
@@ -456,6 +632,9 @@ func (r *setRun[T]) apply(op Op) string {
 			}
 			want = norm(xs)
 		}
+		if len(ss) > 4 {
+			r.manyOperands++
+		}
 		r.vars[d], r.ref[d] = res, want
 		if msg := r.probeAlias(d, "Intersect"); msg != "" {
 			return msg
@@ -503,10 +682,14 @@ func (r *setRun[T]) apply(op Op) string {
 		if msg := r.probeAlias(d, op.K); msg != "" {
 			return msg
 		}
-		pe := r.d.of(probe)
-		res[pe] = struct{}{}
+		pe, ok := r.fresh(items)
+		if ok {
+			res[pe] = struct{}{}
+		}
 		same := maps.Equal(mk, lastK) && maps.Equal(mv, lastV)
-		delete(res, pe)
+		if ok {
+			delete(res, pe)
+		}
 		if !same {
 			now := map[int]int{}
 			for e, i := range mk {
@@ -614,6 +797,10 @@ func runSet(c Case, o *vk.Obs) string {
 		return runSetOf(c, o, anyDom())
 	case elem.F64:
 		return runSetOf(c, o, f64Dom())
+	case kindU8:
+		return runSetOf(c, o, u8Dom())
+	case kindI8:
+		return runSetOf(c, o, i8Dom())
 	}
 	return fmt.Sprintf("VK-INFRA unknown element kind %q", c.Elem)
 }
@@ -633,14 +820,21 @@ func runSetOf[T comparable](c Case, o *vk.Obs, d *dom[T]) string {
 		if msg := r.apply(op); msg != "" {
 			return msg
 		}
+		r.untouched = [NV]bool{true, true, true, true}
+		r.untouched[vi(op.D)] = false
+		for _, s := range op.S {
+			r.untouched[vi(s)] = false
+		}
 		if msg := r.checkAll(); msg != "" {
 			return msg
 		}
 	}
 	r.step = len(c.Ops)
+	r.untouched = [NV]bool{}
 	if msg := r.checkAll(); msg != "" {
 		return msg
 	}
+	r.retain(o)
 	single := len(c.Ops) <= 1
 	if single {
 		// one-operation case (exhaustive leg): DESIGN's rule as stated
@@ -662,9 +856,65 @@ func runSetOf[T comparable](c Case, o *vk.Obs, d *dom[T]) string {
 	o.ClassIf(r.popEmpty > 0, "pop_empty")
 	o.ClassIf(r.ctor > 0, "constructor_alias_probe")
 	o.ClassIf(r.nanCleared > 0, "clear_with_nan_members")
+	o.ClassIf(r.manyOperands > 0, "intersect_5_to_12_operands")
+	o.ClassIf(r.partition > 0, "binary_op_operands_partition_the_universe")
+	o.ClassIf(r.wholeType > 0, "set_holds_every_value_of_its_type")
 	o.Class("elem=" + kindName(c.Elem))
 	for _, op := range c.Ops {
 		o.Class("op:" + op.K) // number of cases containing the operation
 	}
 	return ""
+}
+
+// retain registers the re-validation of what the case still holds at its end:
+// the results of Slice, Append and Keys for every variable, each with a copy
+// taken at once, and the variables themselves with their references.  The kit
+// runs it after the next case (vk.Obs.Retain): results the library handed out
+// must not change under the caller.
+func (r *setRun[T]) retain(o *vk.Obs) {
+	if o == nil {
+		return
+	}
+	type kept struct {
+		sl, slCopy, ap, apCopy []T
+		keys                   mapset.Set[T]
+	}
+	var ks [NV]kept
+	var zero T
+	for i, s := range r.vars {
+		k := &ks[i]
+		k.sl = s.Slice()
+		k.ap = s.Append([]T{zero})
+		k.slCopy, k.apCopy = slices.Clone(k.sl), slices.Clone(k.ap)
+		k.keys = mapset.Keys(map[T]struct{}(s))
+	}
+	o.Retain(func() string {
+		r.step = len(r.c.Ops)
+		for i := range ks {
+			k, want := &ks[i], r.ref[i]
+			if !slices.Equal(k.sl, k.slCopy) {
+				return r.errf("var%d: the slice returned by Slice was %s and is now %s", i, r.d.list(k.slCopy), r.d.list(k.sl))
+			}
+			if !slices.Equal(k.ap, k.apCopy) {
+				return r.errf("var%d: the slice returned by Append([0]) was %s and is now %s", i, r.d.list(k.apCopy), r.d.list(k.ap))
+			}
+			for w, s := range []mapset.Set[T]{r.vars[i], k.keys} {
+				var got []int
+				stray := 0
+				for e := range s { // the built-in iteration, not the package
+					if x, ok := r.d.val(e); ok {
+						got = append(got, x)
+					} else {
+						stray++
+					}
+				}
+				sort.Ints(got)
+				if stray > 0 || !slices.Equal(got, []int(want)) {
+					what := []string{"the variable", "the result of Keys(map of the variable)"}[w]
+					return r.errf("var%d: %s held %v at the end of the case and holds %s now", i, what, want, r.show(s))
+				}
+			}
+		}
+		return ""
+	})
 }
